@@ -309,6 +309,9 @@ func (p *parent) runRange(exe string, t *target, j job, env []string, countEvals
 			}
 			alone := jj
 			alone.From, alone.To, alone.Par, alone.BoundMS = h.Index, h.Index+1, 1, 10*j.BoundMS
+			if j.RetryMS > 0 {
+				alone.BoundMS = j.RetryMS
+			}
 			e2 := spawn(exe, alone, env, 30*time.Minute)
 			p.merge(t, alone, e2, false)
 			confirmed := false
@@ -523,9 +526,17 @@ func main() {
 			units = append(units, unit{t, job{Kind: "enc", From: off, To: min(off+3000, n)}})
 		}
 	}
+	// legitimately expensive derivations: sealed here once, run one child per
+	// case next to everything else
+	wfDone := make(chan struct{})
+	go func() {
+		defer close(wfDone)
+		p.expensive(exe)
+	}()
 	mon.Par(len(units), func(i int) {
 		p.runRange(exe, units[i].t, units[i].j, nil, true)
 	})
+	<-wfDone
 	p.bomGuard()
 	p.plugGuard()
 	p.mu.Lock()
@@ -581,8 +592,8 @@ func main() {
 	if p.builtPlugin != "" {
 		os.Remove(p.builtPlugin)
 	}
-	r.MinEvals = int64(len(targets)-2) * 15000
-	r.MinDistinct = (len(targets) - 2) * 8000
+	r.MinEvals = int64(len(targets)-3) * 15000
+	r.MinDistinct = (len(targets) - 3) * 8000
 	r.Finish()
 }
 
@@ -751,5 +762,48 @@ func (p *parent) plugGuard() {
 		"cells_run": len(p.plugTags), "index_spellings": indexSpellings, "commands": replyCommands, "error_kinds": errorKinds})
 	if missing > 0 && len(p.best) == 0 {
 		p.r.Inconclusive("hostile plugin replies: %d of %d (state machine, command, index position, spelling) cells did not run, e.g. %s", missing, len(exp), first)
+	}
+}
+
+// expensive runs the family of legitimately expensive passphrase files.
+func (p *parent) expensive(exe string) {
+	t := targetByName("ExpensiveScrypt")
+	paths, cases, err := writeWFInputs(scratchDir(), p.r.Thorough())
+	if err != nil {
+		p.r.Inconclusive("expensive derivations: %v", err)
+		return
+	}
+	defer func() {
+		for _, f := range paths {
+			os.Remove(f)
+		}
+	}()
+	var mu sync.Mutex
+	ran := 0
+	mon.ParN(6, len(paths), func(i int) {
+		var env []string
+		if cases[i].wf >= 21 {
+			env = []string{"VERIF_C14_HEADROOM_MB=10240"}
+		}
+		// 40 s per call, 90 s alone: a verdict on a hang within about 130 s
+		before := p.r.Evals()
+		p.runRange(exe, t, job{Kind: "files", Files: []string{paths[i]}, From: 0, To: 1, BoundMS: 40000, RetryMS: 90000}, env, true)
+		_ = before
+		mu.Lock()
+		ran++
+		mu.Unlock()
+	})
+	p.mu.Lock()
+	defer p.mu.Unlock()
+	returned := int64(0)
+	for cls, n := range p.st(t.name).Classes {
+		if strings.HasPrefix(cls, "expensive derivation returned") {
+			returned += n
+		}
+	}
+	p.r.Count("expensive_derivations_returned", returned)
+	p.r.Count("expensive_derivation_cases", int64(len(cases)))
+	if returned < int64(len(cases)) && len(p.best) == 0 {
+		p.r.Inconclusive("expensive derivations: %d of %d cases returned", returned, len(cases))
 	}
 }
